@@ -322,6 +322,43 @@ theorem C08bridge_N (y n secs : Int) (hy1 : 2 ≤ y) (hy2 : y ≤ 9998) (hn1 : 0
   rw [← C08bridge_applyDelta y _ ⟨by omega, by omega⟩ (by intro v hv; simp only [Option.some.injEq] at hv; omega)]
   exact ha
 
+/-- **C08bridge_N365.** The last zero-based POSIX day, `n = 365`, exists only in leap years.  Since the repair of
+    D-C03-yearday366 `tzstr._delta` builds `relativedelta(yearday=366)` = month 12, day 32, NO leap-day correction, and in
+    every leap year 2..9998 `datetime(y,1,1) +` that delta `+ s` seconds is the POSIX day `n = 365` (December 31) plus `s`
+    — on C08's copy of the `__add__` fragment and (by `C08bridge_applyDelta`) on the C03 model. -/
+theorem C08bridge_N365 (y secs : Int) (hy1 : 2 ≤ y) (hy2 : y ≤ 9998) (hl : Cal.isLeap y = true)
+    (hs1 : -86400 * 300 ≤ secs) (hs2 : secs < 86400 * 300) :
+    TzStr.delta { yday := some 366, time := some secs } false 0 0
+      = .ok { month := some 12, day := some 32, leapdays := 0, seconds := secs } ∧
+    (applyTo (rdOfDelta { month := some 12, day := some 32, leapdays := 0, seconds := secs }) (jan1 y)).map secondsOf
+      = .ok (Posix.ruleOrdinal y (Posix.Rule.N 365) * 86400 + secs) := by
+  have he : TzStr.ydayToMonthDay 366 = .ok (12, 32) := by decide
+  refine ⟨by simp [TzStr.delta, he, bind, Except.bind, pure, Except.pure], ?_⟩
+  rw [← C08bridge_applyDelta y _ ⟨by omega, by omega⟩ (by intro v hv; simp only [Option.some.injEq] at hv; omega)]
+  have hd : Cal.daysInMonth y 12 = 31 := by unfold Cal.daysInMonth; simp
+  have hv : Cal.ValidYMD y 12 31 := ⟨by omega, by omega, by omega, by rw [hd]; omega⟩
+  have mg := TzStr.ordinal_margin y 12 31 hy1 hy2 hv
+  have e1 : Cal.dbmTable 1 = 0 := by decide
+  have e12 : Cal.dbmTable 12 = 334 := by decide
+  have hord : Cal.toOrdinal y 12 31 = Cal.toOrdinal y 1 1 + 365 := by
+    unfold Cal.toOrdinal Cal.daysBeforeMonth
+    rw [e1, e12, hl]; simp; omega
+  unfold TzStr.applyDelta TzStr.baseInstant
+  have h31 : min (31 : Int) 32 = 31 := by decide
+  rw [if_neg (by omega)]
+  simp only [show ((12 : Int) != 0) = true from rfl, show ((32 : Int) != 0) = true from rfl, if_true,
+    show ((0 : Int) != 0) = false from rfl, Bool.false_and, Bool.false_eq_true, if_false, Int.add_zero]
+  rw [if_neg (by omega)]
+  simp only [hd, h31]
+  rw [if_neg (by omega)]
+  have hin : TzStr.inRange (Cal.toOrdinal y 12 31 * 86400 + secs) = true := by
+    unfold TzStr.inRange Cal.maxOrdinal at *
+    simp only [decide_eq_true_eq]; omega
+  rw [if_pos hin]
+  simp only [TzStr.weekdayStep]
+  unfold Posix.ruleOrdinal
+  rw [hord]
+
 /-! ## `_gen` twins: the same statements about the definitions RE-TRANSLATED from /repo on this run
 
 `Gen.addDt / Gen.raddDt / Gen.rsubDt / Gen.neg` (Generated/RDOps.lean) are produced by harness/translate_rd.py from
